@@ -19,7 +19,7 @@ import math
 from fractions import Fraction
 import numpy as np
 import z3
-from ndvc import solve
+from ndvc import solve, xcheck
 from ndvc.sym import R, C, real, cplx, lift, CTX, explore, NeedsConcrete, ceq, parts
 from ndvc.arr import SymArr, asobj
 from ndvc.overlay import installed, PINV_LOG, PINV_ARGS
@@ -230,9 +230,24 @@ def run_rich(kind, step, nt, orders, lens):
                 else:
                     for k in range(K):
                         polyzero('S:no-terms:new[%d]==seq[%d]' % (k, k), new[k, 0] - tab[k, 0], pre)
+                if K in (Ks[-1], T + 1) and (kind == 'real' or order <= 2):
+                    # engine cross-check at a concrete point (exact inverse of M for the symbols of the pinv contract)
+                    from fractions import Fraction as Fr
+                    asg = {'q': Fr(1, 2), 'q.re': Fr(2, 5), 'q.im': Fr(-3, 10), 'h': Fr(1, 2)}
+                    for k_ in range(K):
+                        asg['s%d' % k_] = Fr(3 * k_ * k_ - 7 * k_ + 2, 5); asg['s%d.re' % k_] = Fr(3 * k_ * k_ - 7 * k_ + 2, 5); asg['s%d.im' % k_] = Fr(k_ - 2, 3)
+                    rq = 1.0 / (0.5 if kind == 'real' else complex(0.4, -0.3))
+                    tnum = np.array([[float(asg['s%d' % k_]) if kind == 'real' else complex(float(asg['s%d.re' % k_]), float(asg['s%d.im' % k_]))] for k_ in range(K)])
+                    hnum = np.array([[0.5 * (1.0 / rq) ** k_] for k_ in range(K)])
+
+                    def native(rq=rq, step=step, order=order, nt=nt, tnum=tnum, hnum=hnum):
+                        return tuple(ex.Richardson(step_ratio=rq, step=step, order=order, num_terms=nt)(tnum, hnum))
+                    xcheck.defer('engine==CPython(Richardson.__call__)', (new, err, st), asg, native, pinv_log=list(PINV_LOG)[:1],
+                                 rtol=1e-7 if (order + step * max(nt - 1, 0)) * T <= 12 else 1e-3, atol=1e-9)   # scipy's pinv cuts small singular values of ill-conditioned M
                 if order == orders[0] and K == Ks[-1] and T > 0:
                     solve.twin('S:new[0]==seq[0]', zero(new[0, 0] - tab[0, 0]), pre)
                 info['configs'] += 1
+    xcheck.flush()
     return info
 
 
